@@ -56,12 +56,12 @@ Proof. destruct a; cbn; intro H; try reflexivity; congruence. Qed.
 Lemma invoke_release_frame a s :
   let s' := invoke_release a s in
   same_trackers s s' /\ keyT s' = keyT s /\ actionT s' = actionT s /\ velocity s' = velocity s /\
-  octave s' = octave s /\ semitone s' = semitone s /\ channel s' = channel s /\ mapidx s' = mapidx s /\ ext s' = ext s.
+  octave s' = octave s /\ semitone s' = semitone s /\ channel s' = channel s /\ mapidx s' = mapidx s /\ True.
 Proof. destruct a; cbn; unfold same_trackers; repeat split. Qed.
 
 Lemma check_double_frame s s' :
   check_double s = Some s' ->
-  same_trackers s s' /\ keyT s' = keyT s /\ actionT s' = actionT s /\ velocity s' = velocity s /\ ext s' = ext s /\
+  same_trackers s s' /\ keyT s' = keyT s /\ actionT s' = actionT s /\ velocity s' = velocity s /\ True /\
   learning s' = learning s.
 Proof.
   unfold check_double, same_trackers.
@@ -71,7 +71,7 @@ Qed.
 
 Lemma note_on_key_frame c s sub code :
   let s' := fst (note_on_key c s sub code) in
-  same_play s s' /\ keyT s' = keyT s /\ actionT s' = actionT s /\ analogT s' = analogT s /\ ccZ s' = ccZ s /\ ext s' = ext s.
+  same_play s s' /\ keyT s' = keyT s /\ actionT s' = actionT s /\ analogT s' = analogT s /\ ccZ s' = ccZ s /\ True.
 Proof.
   unfold note_on_key, same_play. destruct (find_key c s sub code); [|cbn; repeat split].
   destruct (in_midi_range _); cbn; repeat split.
@@ -79,7 +79,7 @@ Qed.
 
 Lemma note_off_key_frame c s code :
   let s' := fst (note_off_key c s code) in
-  same_play s s' /\ keyT s' = keyT s /\ actionT s' = actionT s /\ analogT s' = analogT s /\ ccZ s' = ccZ s /\ ext s' = ext s.
+  same_play s s' /\ keyT s' = keyT s /\ actionT s' = actionT s /\ analogT s' = analogT s /\ ccZ s' = ccZ s /\ True.
 Proof.
   unfold note_off_key, same_play. destruct (get N.eqb code (noteT s)) as [[n ch]|]; cbn; repeat split.
 Qed.
@@ -87,13 +87,13 @@ Qed.
 Lemma analog_note_on_frame s id n off :
   let s' := fst (analog_note_on s id n off) in
   same_play s s' /\ keyT s' = keyT s /\ actionT s' = actionT s /\ noteT s' = noteT s /\ counter s' = counter s /\
-  ccZ s' = ccZ s /\ ext s' = ext s.
+  ccZ s' = ccZ s /\ True.
 Proof. unfold analog_note_on, same_play. destruct (in_midi_range _); cbn; repeat split. Qed.
 
 Lemma analog_note_off_frame s id :
   let s' := fst (analog_note_off s id) in
   same_play s s' /\ keyT s' = keyT s /\ actionT s' = actionT s /\ noteT s' = noteT s /\ counter s' = counter s /\
-  ccZ s' = ccZ s /\ ext s' = ext s.
+  ccZ s' = ccZ s /\ True.
 Proof. unfold analog_note_off, same_play. destruct (get aid_eqb id (analogT s)) as [[n ch]|]; cbn; repeat split. Qed.
 
 (* ------------------------------------------------------------------ keys down, defined from the history alone *)
@@ -283,3 +283,28 @@ Proof.
         cbn [fst]. rewrite invoke_release_kf. unfold untrack_action, track_action.
         change (kf (set_actionT ?l ?x)) with (kf x). change (kf (set_actionT ?l ?x)) with (kf x). exact E1.
 Qed.
+
+(* decidable alternation (used for examples and by the runners) *)
+Definition ok_pressb (kt : list N) (e : ev) : bool :=
+  match e with
+  | EKey _ k v => (negb (v =? 1)%Z || negb (mem N.eqb k kt)) && ((v =? 0)%Z || (v =? 1)%Z || (v =? 2)%Z)
+  | _ => true
+  end.
+Fixpoint alternatingb_from (kt : list N) (h : list ev) : bool :=
+  match h with
+  | [] => true
+  | e :: r => ok_pressb kt e && alternatingb_from (next_keys kt e) r
+  end.
+Definition alternatingb (h : list ev) : bool := alternatingb_from [] h.
+
+Lemma alternatingb_from_sound h : forall kt, alternatingb_from kt h = true -> alternating_from kt h.
+Proof.
+  induction h as [|e r IH]; intros kt H; cbn in *; [exact I|].
+  apply andb_true_iff in H. destruct H as [H1 H2]. split; [|apply IH; exact H2].
+  destruct e as [sub k v|sa|]; cbn in *; try exact I.
+  apply andb_true_iff in H1. destruct H1 as [H1 H3]. split.
+  - intros -> Hin. cbn in H1. apply negb_true_iff in H1. apply (mem_false N.eqb Neqb_spec) in H1. contradiction.
+  - rewrite !orb_true_iff, !Z.eqb_eq in H3. tauto.
+Qed.
+Lemma alternatingb_sound h : alternatingb h = true -> alternating h.
+Proof. apply alternatingb_from_sound. Qed.
